@@ -216,6 +216,27 @@ def check_template(part, t, where, switches):
         cfg, diffs, text = failures[0]
         part["violations"].append({"payload": program_payload(src, cfg), "diffs": diffs,
                                    "what": "evaluation order/count differs for template %r in %s placement" % (t[:60], where)})
+        return
+    # the same statement computing FALSY / negative / empty values (gen/perturb.py): a variant is a
+    # program of its own; one whose original raises is outside the domain
+    from ..gen import perturb
+    if where in ("module", "function", "class"):
+        for mode in ("falsy", "negative", "empty"):
+            v = perturb.perturb(src, mode)
+            if v is None:
+                continue
+            ov = run_code(v, "exec", wall=3)
+            if not ov["ok"]:
+                part["discarded"]["value-variant-original-raises"] += 1
+                continue
+            part["evaluations"] += 1
+            part["classes"]["value-variant:" + mode] += 1
+            status, failures, _ = check_program(v, env.ALL_CFGS[::3] + env.ALL_CFGS[1::3][:1], orig=ov)
+            if status == "fail":
+                cfg, diffs, text = failures[0]
+                part["violations"].append({"payload": program_payload(v, cfg), "diffs": diffs,
+                                           "what": "evaluation order/count differs for the %s-valued variant of template %r in %s placement" % (mode, t[:60], where)})
+                return
 
 
 def nested_cases():
